@@ -810,11 +810,12 @@ var docFaultOps = []docFaultOp{
 	}},
 	{"subscription-introspection-root", "SingleFieldSubscriptions", func(t *rapid.T, td *TypedDoc, s *ref.Schema) bool {
 		for _, op := range td.Doc.Ops {
-			if op.Op == "subscription" {
+			// (an operation with directives may use its variables there: not a target)
+			if op.Op == "subscription" && len(op.Directives) == 0 {
 				op.Sels = []*ref.Selection{leafTypename()}
 				// variables of the operation may now be unused: remove them to keep this the only fault
 				op.Vars = nil
-				return len(op.Directives) == 0
+				return true
 			}
 		}
 		return false
@@ -955,7 +956,7 @@ func NumDocFaults() int { return len(docFaultOps) }
 func ApplyDocFault(t *rapid.T, td *TypedDoc, s *ref.Schema, idx int) (DocFault, bool) {
 	for k := 0; k < len(docFaultOps); k++ {
 		op := docFaultOps[(idx+k)%len(docFaultOps)]
-		if op.f(t, td, s) {
+		if tryDocFault(op.name, op.f, t, td, s) {
 			return DocFault{Name: op.name, Rule: op.rule}, true
 		}
 	}
@@ -975,10 +976,23 @@ func ApplyRareDocFault(t *rapid.T, td *TypedDoc, s *ref.Schema) (DocFault, bool)
 	for k := 0; k < len(rareDocFaults); k++ {
 		name := rareDocFaults[(start+k)%len(rareDocFaults)]
 		for _, op := range docFaultOps {
-			if op.name == name && op.f(t, td, s) {
+			if op.name == name && tryDocFault(op.name, op.f, t, td, s) {
 				return DocFault{Name: op.name, Rule: op.rule}, true
 			}
 		}
 	}
 	return DocFault{}, false
+}
+
+// tryDocFault runs one operator; an operator that reports "no target" must have left the
+// document alone (otherwise a later operator works on sites that are no longer part of it).
+func tryDocFault(name string, f func(*rapid.T, *TypedDoc, *ref.Schema) bool, t *rapid.T, td *TypedDoc, s *ref.Schema) bool {
+	before := JoinPlain(QueryLexemes(td.Doc, Canon))
+	if f(t, td, s) {
+		return true
+	}
+	if JoinPlain(QueryLexemes(td.Doc, Canon)) != before {
+		panic("harness: fault operator " + name + " changed the document although it reports no target")
+	}
+	return false
 }
